@@ -446,7 +446,7 @@ namespace Givaro {
 #if __GIVARO_SIZEOF_LONG < 8
         return (uint64_t)trem(n,Integer(d));
 #else
-        return mpz_cdiv_ui( (mpz_srcptr)&(n.gmp_rep),
+        return mpz_tdiv_ui( (mpz_srcptr)&(n.gmp_rep),
                             (d));
 #endif
     }
@@ -456,7 +456,7 @@ namespace Givaro {
 #if __GIVARO_SIZEOF_LONG < 8
         return (uint64_t)crem(n,Integer(d));
 #else
-        return mpz_tdiv_ui( (mpz_srcptr)&(n.gmp_rep),
+        return mpz_cdiv_ui( (mpz_srcptr)&(n.gmp_rep),
                             (d));
 #endif
     }
